@@ -215,7 +215,7 @@ class AdvancedHTMLParser(HTMLParser):
         '''
         inTag = self._inTag
         if len(inTag) > 0:
-            inTag[-1].appendText('<!-- %s -->' %(comment,))
+            inTag[-1].appendText('<!--%s-->' %(comment,))
         else:
             raise MultipleRootNodeException()
 
